@@ -129,6 +129,17 @@ class Poly:
             t[mm] = t.get(mm, 0) + cc
         return Poly(t)
 
+    def evaluate(self, env):
+        """Float value and the sum of |terms| (scale for a cancellation-aware tolerance)."""
+        tot, scale = 0.0, 0.0
+        for m, c in self.terms.items():
+            v = float(c)
+            for a, e in m:
+                v *= float(env[a]) ** e
+            tot += v
+            scale += abs(v)
+        return tot, scale
+
     def canon(self):
         if not self.terms:
             return "0"
